@@ -204,3 +204,10 @@ def lemma(from_instance, to_instance, rel_id, phrase):
     assert t[2].source_link.navigate(t[0]) == s0
     assert t[2].target_link.navigate(t[1]) == t0
 ''')
+
+# ---- delete, pool part (variant without disconnecting; the unlinking loop iterates a partner set that unrelate shrinks: bounded tier)
+M.contract('xtuml.meta.MetaClass.delete@keep-links', [('self', MC), ('instance', INST), ('disconnect', BOOL, 'True')], returns=NONE,
+           requires={'links-are-kept': 'disconnect == False'},
+           ensures={'removed-from-the-pool-order-of-the-rest-kept': 'self.storage == seq_remove(old(self.storage), instance)'},
+           raises=[Raises('DeleteException', when='instance not in self.storage')],
+           modifies=['self.storage'])
